@@ -237,6 +237,19 @@ Clr(h, f) == LET o == H[h].o IN
 (* gives an immutable default, so the mutation fails.                      *)
 (***************************************************************************)
 \* h.sub.i = k
+\* whole-field assignment through a path: h.sub.mp = {"a": k},  h.sub.r = [k]
+\* (other handles on the same sub-message must see the new content)
+SubSetMp(h) == LET s == M[H[h].o].sub k == IF s = 0 \/ M[s].mp = 0 THEN 1 ELSE Bump(P[M[s].mp].a) IN
+  Step("sub.setmp", h, 0, k, s # 0 /\ ~FrzM(h, s),
+       IF s = 0 THEN M ELSE [M EXCEPT ![s].mp = Len(P) + 1], L,
+       IF s = 0 THEN P ELSE Append(P, [a |-> k, b |-> 0]), H)
+SubSetR(h) == LET s == M[H[h].o].sub
+                  l == IF s = 0 THEN 0 ELSE M[s].r
+                  k == IF l = 0 THEN 1 ELSE Bump(L[l][1]) IN
+  IF s = 0 THEN Step("sub.setr", h, 0, k, FALSE, M, L, P, H)
+  ELSE IF l = 0 \/ (~Flags /\ l \in FL)
+       THEN Step("sub.setr", h, 0, k, ~FrzM(h, s), [M EXCEPT ![s].r = Len(L) + 1], Append(L, <<k>>), P, H)
+       ELSE Step("sub.setr", h, 0, k, ~FrzM(h, s), M, [L EXCEPT ![l] = <<k>>], P, H)
 SubSetI(h) == LET s == M[H[h].o].sub k == IF s = 0 THEN 1 ELSE Bump(M[s].i) IN
   Step("sub.seti", h, 0, k, s # 0 /\ ~FrzM(h, s), IF s = 0 THEN M ELSE SetFld(s, "i", k), L, P, H)
 
@@ -337,7 +350,7 @@ Next ==
   \/ Construct
   \/ \E h \in MsgHandles :
        \/ Copy(h) \/ SetI(h) \/ SetSubNew(h) \/ SetR(h) \/ SetRmNew(h) \/ SetMp(h) \/ SetMmNew(h)
-       \/ SubSetI(h) \/ RApp(h) \/ RSet(h) \/ Rm0SetI(h) \/ MpSet(h) \/ Mm0SetI(h)
+       \/ SubSetI(h) \/ SubSetMp(h) \/ SubSetR(h) \/ RApp(h) \/ RSet(h) \/ Rm0SetI(h) \/ MpSet(h) \/ Mm0SetI(h)
        \/ \E f \in {"sub", "r", "rm", "mp", "rm0", "mm0"} : View(h, f)
        \/ \E op \in SnapRoutes : Snap(h, op)
        \/ \E f \in {"i", "sub", "r", "rm", "mp", "mm"} : Clr(h, f)
